@@ -7,7 +7,7 @@
    end of this file. *)
 From Coq Require Import List NArith ZArith Bool.
 Import ListNotations.
-From VF Require Import Base Core Core_lemmas Core_inv Core_props Cluster Cluster_proofs Below_proofs Below_cluster Below_restart Extra_proofs.
+From VF Require Import Base Core Core_lemmas Core_inv Core_props Cluster Cluster_proofs Below_proofs Below_cluster Below_restart Extra_proofs Exchange Heal_proofs.
 
 (* in every reachable state of the cluster, under every schedule, every claim about a member — a record
    held by any node, a broadcast queued anywhere, anything ever put on the network — carries at most
@@ -166,6 +166,76 @@ Proof.
   - vm_compute. reflexivity.
 Qed.
 
+(* ---------- anti-entropy heals a pair (a liveness step, proved for EVERY pair of node states) ---------- *)
+(* x is a running node that has not called Leave and lists itself alive (C02: every reachable state);
+   y holds about x nothing at all, or ANY record at x's address — a stale incarnation, Suspect, Dead,
+   Left, stale metadata, even an incarnation x never reached (a restart).  After two complete push/pull
+   exchanges between them (each = both sides write their whole state, then both merge what they read,
+   entry by entry) y lists x alive with x's address and current metadata, and x still lists itself with
+   them.  No cluster invariant and no fairness premise is used: the exchange itself forces the refutation
+   (x reads y's accusation, moves above it) and delivers it (the second exchange carries the new
+   incarnation).  This is the step the convergence argument of the property rests on; that the pair ever
+   exchanges is what the connectivity premise is for, and is not proved (see the end of this file). *)
+Theorem C05_two_exchanges_heal : forall cx sx cy sy rx,
+  keys_ok sx -> keys_ok sy -> self cx <> self cy ->
+  SelfGood cx sx rx -> (0 < rinc rx)%N -> vsn_bad (rvsn rx) = false -> below_max (linc sx) ->
+  ((lk sy (self cx) = None /\ is_allowed cy (raddr rx) = true) \/
+   (exists ry, lk sy (self cx) = Some ry /\ raddr ry = raddr rx /\ vsn_bad (rvsn ry) = false /\ below_max (rinc ry))) ->
+  let '(sx2, sy2) := pushpull2 cx sx cy sy in
+  (exists r', lk sy2 (self cx) = Some r' /\ rst r' = Alive /\ raddr r' = raddr rx /\ rmeta r' = rmeta rx) /\
+  (exists rx2, SelfGood cx sx2 rx2 /\ raddr rx2 = raddr rx /\ rmeta rx2 = rmeta rx).
+Proof. exact two_pushpulls_heal. Qed.
+Print Assumptions C05_two_exchanges_heal.
+
+(* both directions at once, in terms of what Members() shows *)
+Theorem C05_two_exchanges_heal_mutual : forall cx sx cy sy rx ry,
+  self cx <> self cy -> heal_self cx sx rx -> heal_self cy sy ry ->
+  heal_prior cy sy cx rx -> heal_prior cx sx cy ry ->
+  let '(sx2, sy2) := pushpull2 cx sx cy sy in
+  listed sy2 (self cx) = Some (raddr rx, rmeta rx) /\ listed sx2 (self cy) = Some (raddr ry, rmeta ry) /\
+  listed sx2 (self cx) = Some (raddr rx, rmeta rx) /\ listed sy2 (self cy) = Some (raddr ry, rmeta ry).
+Proof. exact two_pushpulls_heal_mutual. Qed.
+Print Assumptions C05_two_exchanges_heal_mutual.
+
+(* while it merges a whole state list a running node keeps listing itself with its address and metadata,
+   and every entry about itself at or above its incarnation that is not an exact echo of its own record
+   has been outranked when the merge ends: no false accusation carried by a push/pull sticks *)
+Theorem C05_merge_refutes_every_accusation : forall c l, NoDup (map fst l) -> forall s r, SelfGood c s r ->
+  (forall q, In (self c, q) l -> below_max (rinc q) /\ below_max (linc s)) ->
+  exists r', SelfGood c (merge_all c s (map ent l)) r' /\ raddr r' = raddr r /\ rmeta r' = rmeta r /\ rvsn r' = rvsn r
+    /\ (rinc r <= rinc r')%N
+    /\ (forall q, In (self c, q) l -> raddr q = raddr r -> vsn_bad (rvsn q) = false -> (rinc r <= rinc q)%N ->
+          (rst q = Alive /\ rinc q = rinc r /\ rmeta q = rmeta r) \/ (rinc q < rinc r')%N).
+Proof. exact x_merges. Qed.
+Print Assumptions C05_merge_refutes_every_accusation.
+
+(* non-vacuity, and "two" is tight: member 1 updates its metadata (incarnation 2); member 2 — which knew it
+   at incarnation 1 — is then told by somebody that member 1 is dead at incarnation 2 and believes it.
+   One exchange: member 1 refutes (incarnation 3) but member 2 has merged the OLD snapshot and still
+   holds it Dead, i.e. does not list it; the second exchange delivers the refutation. *)
+Definition hx0 : nstate := fst (step (cfgn 1) (boot (cfgn 1) 10) (OUpdate 11 0)).
+Definition hy0 : nstate :=
+  fst (run (cfgn 2) (boot (cfgn 2) 20) [OAlive 1 1 1 10 [1;5;2;0;0;0]%N false; OAlive 2 1 1 11 [1;5;2;0;0;0]%N false; ODead 2 1 3]).
+Example C05_heal_nonvacuous :
+  (exists rx ry, heal_self (cfgn 1) hx0 rx /\ heal_self (cfgn 2) hy0 ry /\ heal_prior (cfgn 2) hy0 (cfgn 1) rx /\ heal_prior (cfgn 1) hx0 (cfgn 2) ry) /\
+  listed hy0 1 = None /\
+  (let '(sx1, sy1) := pushpull (cfgn 1) hx0 (cfgn 2) hy0 in
+   listed sy1 1 = None /\ linc sx1 = 3%N /\ listed sx1 2 = Some (2, 20)%N) /\
+  (let '(sx2, sy2) := pushpull2 (cfgn 1) hx0 (cfgn 2) hy0 in
+   listed sy2 1 = Some (1, 11)%N /\ listed sx2 2 = Some (2, 20)%N /\
+   map (fun p => (fst p, rinc (snd p), rst (snd p))) (recs sy2) = [(2, 1, Alive); (1, 3, Alive)]%N).
+Proof.
+  split.
+  - exists (mkRec 2 Alive 1 11 [1;5;2;0;0;0]%N 0), (mkRec 1 Alive 2 20 [1;5;2;0;0;0]%N 0).
+    unfold heal_self, heal_prior, SelfGood, keys_ok, no_live, below_max.
+    split; [|split; [|split]].
+    + split; [vm_compute; repeat constructor; cbn; intuition discriminate|]. repeat split; vm_compute; reflexivity.
+    + split; [vm_compute; repeat constructor; cbn; intuition discriminate|]. repeat split; vm_compute; reflexivity.
+    + right. eexists. split; [vm_compute; reflexivity|]. repeat split; vm_compute; reflexivity.
+    + left. split; vm_compute; reflexivity.
+  - vm_compute. repeat split; reflexivity.
+Qed.
+
 (* The property as worded ("if the live nodes' member lists still connect them ... then every live node's
    Members() is exactly the live set") is FALSE of the implementation: known finding D-C05, with a
    deterministic two-node replay in corpus/cluster/defects.json that the check re-runs on every invocation.
@@ -173,5 +243,8 @@ Qed.
    refutation's retransmissions are used up while nobody can hear them, and nothing re-sends it because
    accusations at the stale incarnation are ignored by their subject, acknowledgements do not clear a
    suspicion and push/pull only ever picks Alive peers — is outside what this model can express; no
-   [_refuted] theorem is therefore stated here, and no convergence theorem either (peer selection is
-   random in the code: convergence for every schedule is not true of any faithful model). *)
+   [_refuted] theorem is therefore stated here.  What IS proved about liveness is the pairwise step above
+   (C05_two_exchanges_heal: any two running nodes that complete two push/pull exchanges list each other
+   with current metadata, whatever they held); that every pair the connectivity premise connects
+   eventually exchanges is not a theorem of any faithful model (peer selection is random in the code, and
+   pushPull() only picks peers held Alive — which is the substance of D-C05). *)
